@@ -72,6 +72,15 @@ def make_X(rng, n, p, kind="gauss", rho=0.5, density=1.0):
     elif kind == "centered":
         X = rng.standard_normal((n, p)) * (10.0 ** rng.uniform(-1, 1, size=p))
         X = X - X.mean(axis=0)          # the usual preprocessing: the optimal intercept is then the mean of the target
+    elif kind == "contrast":
+        # sum-to-zero contrast coding: entries in {-1, 0, 1}, every column sums to zero EXACTLY (a constant vector is in
+        # the null space of X X^T: power iterations started from it never move)
+        X = np.zeros((n, p))
+        for j in range(p):
+            k = int(rng.integers(1, max(2, n // 2)))
+            idx = rng.permutation(n)[: 2 * k]
+            X[idx[:k], j], X[idx[k:], j] = 1.0, -1.0
+        density = 1.0
     else:
         raise KeyError(kind)
     if density < 1.0:
